@@ -43,7 +43,7 @@ var builtinRenames = []struct{ re *regexp.Regexp; to string }{
 var callParams = []string{"pa", "pb", "pc"}
 
 // names that must not be visible after the calls/cases that created them
-var callProbeNames = []string{"pa", "pb", "pc", "la", "li", "lx", "mq", "ma", "loc1", "loc2", "ga", "ca", "va", "rn", "en", "on", "na", "ra", "loc3", "da", "dx", "dq", "oa", "qa", "ma1", "ma2", "mo", "mb1", "mb2", "qb", "loc4", "loc5", "wn", "wx", "lq", "lm1", "lother", "lb", "lbo", "ml1", "mlo", "wa", "t1", "t2", "t3", "fa", "fl", "fr", "ns", "nc", "sa", "acc", "sacc", "lacc", "fo", "fs", "fn", "mz1", "mz2", "mz3", "mz4", "show2"}
+var callProbeNames = []string{"pa", "pb", "pc", "la", "li", "lx", "mq", "ma", "loc1", "loc2", "ga", "ca", "va", "rn", "en", "on", "na", "ra", "loc3", "da", "dx", "dq", "oa", "qa", "ma1", "ma2", "mo", "mb1", "mb2", "qb", "loc4", "loc5", "wn", "wx", "lq", "lm1", "lother", "lb", "lbo", "ml1", "mlo", "wa", "t1", "t2", "t3", "fa", "fl", "fr", "ns", "nc", "sa", "acc", "sacc", "lacc", "fo", "fs", "fn", "mz1", "mz2", "mz3", "mz4", "show2", "mn1", "mn2", "mno"}
 
 func (c *CallCase) program() string {
 	var sb strings.Builder
@@ -183,6 +183,9 @@ $.op == "clobmiss" { r1 = clobber($.a[7])
  print step, r1, r2, r3, $.a.length(), $.nokey, $.a[0] }
 $.op == "nextexpr" { print step, "beforex"
  xx = [1, [donext2($.a[0]), 2]] + 1
+ print step, "NOT REACHED" }
+$.op == "mnext" { print step, "beforem"
+ mnr = match ($.a[0]) { [mn1, mn2] => donext(mn1), mno => donext2(mno) }
  print step, "NOT REACHED" }
 $.op == "proc" { print step, proc($.a[0]) }
 $.op == "walk" { print step, walk($.a[0]) }
@@ -438,6 +441,15 @@ func (c *CallCase) model() (lines []string, exited bool, ok bool) {
 		case "nextexpr":
 			emit("beforex")
 			NX = arg(0)
+			skipEOR = true
+		case "mnext":
+			// next raised by a function called from an expression-bodied case that binds names
+			emit("beforem")
+			if a := arg(0); a.Kind == 'a' && len(a.Arr) == 2 {
+				NX = a.Arr[0]
+			} else {
+				NX = a
+			}
 			skipEOR = true
 		case "proc":
 			emit("null")
@@ -700,8 +712,8 @@ func genCallArg(t *Tape) string {
 }
 
 func genCallOp(t *Tape) CallOp {
-	ops := []string{"id0", "id1", "id2", "id3", "id4", "loopret", "mklocal", "setg", "readg", "clobber", "viaother", "rec", "mutual", "donext", "donext2", "noret", "outer", "mexpr", "mblock", "pat", "proc", "walk", "mlit", "litmatch", "litblock", "awkloc0", "awkloc1", "awkloc2", "fresh", "fresh2", "nextstr", "shadow", "clobmiss", "nextexpr", "argorder", "argincr", "mlet", "mkfresh", "mstale", "pfname"}
-	w := []int{1, 2, 2, 2, 2, 3, 3, 2, 2, 3, 2, 2, 1, 3, 2, 2, 2, 4, 3, 2, 3, 2, 3, 3, 2, 1, 2, 2, 4, 2, 2, 3, 3, 2, 3, 2, 4, 3, 4, 3}
+	ops := []string{"id0", "id1", "id2", "id3", "id4", "loopret", "mklocal", "setg", "readg", "clobber", "viaother", "rec", "mutual", "donext", "donext2", "noret", "outer", "mexpr", "mblock", "pat", "proc", "walk", "mlit", "litmatch", "litblock", "awkloc0", "awkloc1", "awkloc2", "fresh", "fresh2", "nextstr", "shadow", "clobmiss", "nextexpr", "argorder", "argincr", "mlet", "mkfresh", "mstale", "pfname", "mnext"}
+	w := []int{1, 2, 2, 2, 2, 3, 3, 2, 2, 3, 2, 2, 1, 3, 2, 2, 2, 4, 3, 2, 3, 2, 3, 3, 2, 1, 2, 2, 4, 2, 2, 3, 3, 2, 3, 2, 4, 3, 4, 3, 3}
 	op := ops[t.Weighted(w...)]
 	var args []string
 	switch op {
@@ -713,6 +725,8 @@ func genCallOp(t *Tape) CallOp {
 		args = []string{[]string{"1", "2", "[1,2]", `["a",[3]]`, `"str"`, "null", "5", "[9,8]"}[t.Draw(8)]}
 	case "mblock":
 		args = []string{[]string{"[1]", "2", `["q"]`, `"str"`, "[1,2]", "null", "[[3]]"}[t.Draw(7)]}
+	case "mnext":
+		args = []string{[]string{"[1,2]", "2", `["q","r"]`, `"str"`, "[1]", "null", "[[3],4]"}[t.Draw(7)]}
 	case "mlit", "litmatch", "litblock":
 		// subjects never put a container against a scalar literal (== on containers is an error)
 		args = []string{[]string{"[]", "[0,0]", "[1,[2,3]]", "[5,9]", "[0,1]", "[7]", "[1,2,3]", "7", `"s"`, "null", "[3,9]"}[t.Draw(11)]}
@@ -739,7 +753,7 @@ func genCallOp(t *Tape) CallOp {
 // return or next (a frame, a counter, a slot) accumulates past every fixed budget.
 func genVeryLongCase(t *Tape) *CallCase {
 	c := &CallCase{Arity: t.Draw(4), LoopKind: []string{"for", "while", "forin", "match", "matchblock", "if", "forinstr"}[t.Draw(7)]}
-	kinds := []string{"donext", "id1", "loopret", "mexpr", "mblock", "noret", "proc", "nextstr", "donext2", "clobber", "mlit", "nextexpr", "nextexpr", "litblock"}
+	kinds := []string{"donext", "id1", "loopret", "mexpr", "mblock", "noret", "proc", "nextstr", "donext2", "clobber", "mlit", "nextexpr", "nextexpr", "litblock", "mnext"}
 	dom := kinds[t.Draw(len(kinds))]
 	n := 110000 + t.Draw(30000)
 	mk := func(k string) CallOp {
@@ -842,6 +856,15 @@ func registerC08() {
 				New:         func() any { return &CallCase{} },
 				ShrinkEvals: 60,
 				Simplify:    simplifyCall,
+				NoRecheck:   true,
+			},
+			{
+				Name:        "counted-gaps",
+				Count:       func(tier string) int { return map[string]int{"quick": 510, "thorough": 12000}[tier] },
+				Gen:         func(i int, t *Tape, tier string) any { return genGapCase(i, t, tier) },
+				Run:         func(c any, keep bool) Outcome { return runGapCase(c.(*GapCase), keep) },
+				New:         func() any { return &GapCase{} },
+				ShrinkEvals: 40,
 				NoRecheck:   true,
 			},
 			{
